@@ -107,3 +107,155 @@ Proof.
   cbv zeta. split; [repeat constructor|]. split; [repeat constructor; intros []|].
   split; [repeat constructor|]. split; vm_compute; reflexivity.
 Qed.
+
+(* ======================================================================================
+   Extension (round 3).  Model/FPSExt.v, Proofs/FPSExtP.v (layer D), Proofs/PCovDistP.v
+   (layer A).
+
+   [mdist axis1 D j l] = D_jj + D_ll - 2 * (axis1 ? D_jl : D_lj) is the distance that
+   _PCovFPS._update_hausdorff forms from the matrix pcovr_distance_ (np.take(D, l, axis));
+   [fps_chain] / [pcov_chain] = a cold fit followed by warm-started continuations
+   (fit(warm_start=True)), any number of stages, any thresholds. *)
+From Verif Require Import FPSExt FPSExtP.
+
+(* PCov-FPS, BOTH directions, ANY square matrix in pcovr_distance_: the reported table and the
+   reported select distances are the true minima of the distance induced by that matrix *)
+Theorem C02_pcov_matrix_table_true :
+  forall (axis1 : bool) (D cs : list (list Z)) ycand, sqmat (length cs) D ->
+    forall i0 t niter g' st, (i0 < length cs)%nat ->
+    pcov_fit axis1 D cs ycand i0 t niter = (g', st) ->
+    haus (sst g') = map (fun j => tabmin (mdist axis1 D) j (sel g')) (seq 0 (length cs)).
+Proof. exact mat_table_true. Qed.
+Print Assumptions C02_pcov_matrix_table_true.
+
+Theorem C02_pcov_matrix_select_distance :
+  forall (axis1 : bool) (D cs : list (list Z)) ycand, sqmat (length cs) D ->
+    forall i0 t niter g' st, (i0 < length cs)%nat ->
+    pcov_fit axis1 D cs ycand i0 t niter = (g', st) ->
+    forall k, (k < length (sel g'))%nat ->
+      nth k (select_distance g') None
+      = tabmin (mdist axis1 D) (nth k (sel g') O) (firstn k (sel g')).
+Proof. exact mat_select_distance_true. Qed.
+Print Assumptions C02_pcov_matrix_select_distance.
+
+(* PCov-FPS, FEATURE direction (and again the sample direction: [axis1] is arbitrary).  With F the
+   feature vectors (columns of X) and CY the rows of C_Y = (X^T X)^(-1/2) X^T Y, the modified
+   covariance at mixing a/4 is 4 C~ = a X^T X + (4-a) C_Y C_Y^T = [kernel4 a F CY]; reading its
+   COLUMNS (axis 1) the table is the true minimum of the mixed squared distance
+   a |x_j - x_l|^2 + (4-a) |cy_j - cy_l|^2 and every step is farthest for it. *)
+Theorem C02_pcov_feature_table_true :
+  forall (axis1 : bool) F CY dx dy a ycand,
+    dims dx F -> dims dy CY -> length CY = length F ->
+    forall i0 t niter g' st, (i0 < length F)%nat ->
+    pcov_fit axis1 (kernel4 a F CY) F ycand i0 t niter = (g', st) ->
+    haus (sst g') = map (fun j => tabmin (pcov_dist F CY a) j (sel g')) (seq 0 (length F)).
+Proof. exact feat_table_true. Qed.
+Print Assumptions C02_pcov_feature_table_true.
+
+Theorem C02_pcov_feature_select_distance :
+  forall (axis1 : bool) F CY dx dy a ycand,
+    dims dx F -> dims dy CY -> length CY = length F ->
+    forall i0 t niter g' st, (i0 < length F)%nat ->
+    pcov_fit axis1 (kernel4 a F CY) F ycand i0 t niter = (g', st) ->
+    forall k, (k < length (sel g'))%nat ->
+      nth k (select_distance g') None
+      = tabmin (pcov_dist F CY a) (nth k (sel g') O) (firstn k (sel g')).
+Proof. exact feat_select_distance_true. Qed.
+Print Assumptions C02_pcov_feature_select_distance.
+
+Theorem C02_pcov_feature_step_farthest :
+  forall (axis1 : bool) F CY dx dy a ycand, 0 <= a <= 4 ->
+    dims dx F -> dims dy CY -> length CY = length F ->
+    forall i0 t niter g' st, (i0 < length F)%nat ->
+    pcov_fit axis1 (kernel4 a F CY) F ycand i0 t niter = (g', st) ->
+    exists new, sel g' = [i0] ++ new /\ farthest_seq F (pcov_dist F CY a) [i0] new.
+Proof. exact feat_steps_farthest. Qed.
+Print Assumptions C02_pcov_feature_step_farthest.
+
+(* Histories: after a cold fit and ANY number of warm-started continuations (any thresholds, any
+   n_to_select per stage) the table is still the true minimum distance to everything selected so
+   far, the select distances are the true minima at selection time, nothing is selected twice and
+   EVERY selection after the initial ones - in whichever stage it was made - was a farthest
+   candidate w.r.t. all earlier selections. *)
+Theorem C02_warm_chain :
+  forall cs d ycand, dims d cs -> forall inits stages,
+    NoDup inits -> in_range (length cs) inits -> inits <> [] ->
+    let g := fps_chain cs ycand inits stages in
+    haus (sst g) = map (fun j => tabmin (fps_dist cs) j (sel g)) (seq 0 (length cs)) /\
+    (forall k, (k < length (sel g))%nat ->
+       nth k (select_distance g) None = tabmin (fps_dist cs) (nth k (sel g) O) (firstn k (sel g))) /\
+    NoDup (sel g) /\
+    exists new, sel g = inits ++ new /\ farthest_seq cs (fps_dist cs) inits new.
+Proof. exact fps_chain_true. Qed.
+Print Assumptions C02_warm_chain.
+
+Theorem C02_pcov_warm_chain :
+  forall (axis1 : bool) F CY dx dy a ycand, 0 <= a <= 4 ->
+    dims dx F -> dims dy CY -> length CY = length F ->
+    forall i0 stages, (i0 < length F)%nat ->
+    let g := pcov_chain axis1 (kernel4 a F CY) F ycand i0 stages in
+    haus (sst g) = map (fun j => tabmin (pcov_dist F CY a) j (sel g)) (seq 0 (length F)) /\
+    (forall k, (k < length (sel g))%nat ->
+       nth k (select_distance g) None
+       = tabmin (pcov_dist F CY a) (nth k (sel g) O) (firstn k (sel g))) /\
+    NoDup (sel g) /\
+    exists new, sel g = [i0] ++ new /\ farthest_seq F (pcov_dist F CY a) [i0] new.
+Proof. exact pcov_chain_true. Qed.
+Print Assumptions C02_pcov_warm_chain.
+
+(* non-vacuity: a feature-direction run on a Gram matrix with ties, continued warm; and a
+   non-symmetric matrix on which the two axes induce different distances *)
+Example C02_ext_nonvacuous :
+  let F := [[2;0];[0;2];[2;2];[1;1]] in let CY := [[1];[0];[3];[1]] in
+  dims 2 F /\ dims 1 CY /\ length CY = length F /\
+  sel (pcov_chain true (kernel4 2 F CY) F None 0 [(NoThr, 2%nat); (NoThr, 4%nat)]) = [0; 1; 2; 3]%nat /\
+  select_distance (pcov_chain true (kernel4 2 F CY) F None 0 [(NoThr, 2%nat); (NoThr, 4%nat)])
+    = [None; Some 18; Some 16; Some 4] /\
+  sel (fps_chain F None [3%nat] [(NoThr, 2%nat); (NoThr, 3%nat)]) = [3; 0; 1]%nat /\
+  mdist true [[0;1];[5;0]] 0 1 <> mdist false [[0;1];[5;0]] 0 1.
+Proof.
+  cbv zeta. split; [repeat constructor|]. split; [repeat constructor|]. split; [reflexivity|].
+  split; [vm_compute; reflexivity|]. split; [vm_compute; reflexivity|].
+  split; [vm_compute; reflexivity|]. vm_compute. discriminate.
+Qed.
+
+(* ---- layer A: the distance induced by pcovr_covariance / pcovr_kernel ----------------------
+   [idist M i j] = M_ii + M_jj - 2 M_ij.  cov_prog / kern_prog / cy_prog are the programs of
+   Model/PCovR.v that the correspondence check runs against pcovr_distance_ on float data
+   (Model/PCovFPSDist.v); eval_mx is their value over an ARBITRARY real closed field, for ALL
+   shapes.  No oracle hypothesis is needed: whatever eigh returned, the induced distance is a
+   mixed squared Euclidean distance (that C_Y is built from the inverse square root of X^T X
+   when eigh is right is Properties/C03.v, C03_isqrt_spec). *)
+From mathcomp Require Import all_ssreflect all_algebra.
+From Verif Require Import MExp MExpMx PCovR PCovRP PCovRProg PCovDistP.
+Import GRing.Theory Num.Theory.
+Local Open Scope ring_scope.
+
+Theorem C02_cov_distance :
+  forall (F : rcfType) (n m p : nat) (env : env_mx F), 0 <= e_a env <= 1 ->
+    forall i j : 'I_m,
+      let Ct := eval_mx env (cov_prog n m p) in
+      let CY := eval_mx env (cy_prog n m p) in
+      let X := e_X n m env in
+      [/\ idist Ct i j = e_a env * (\sum_q (X q i - X q j) ^+ 2)
+                         + (1 - e_a env) * (\sum_q (CY i q - CY j q) ^+ 2),
+          0 <= idist Ct i j, idist Ct i i = 0 & Ct i j = Ct j i].
+Proof. exact cov_distance_spec. Qed.
+Print Assumptions C02_cov_distance.
+
+Theorem C02_kernel_distance :
+  forall (F : rcfType) (n m p : nat) (env : env_mx F), 0 <= e_a env <= 1 ->
+    forall i j : 'I_n,
+      let Kt := eval_mx env (kern_prog n m p) in
+      let X := e_X n m env in let Y := e_Yh n p env in
+      [/\ idist Kt i j = e_a env * (\sum_q (X i q - X j q) ^+ 2)
+                         + (1 - e_a env) * (\sum_q (Y i q - Y j q) ^+ 2),
+          0 <= idist Kt i j, idist Kt i i = 0 & Kt i j = Kt j i].
+Proof. exact kern_distance_spec. Qed.
+Print Assumptions C02_kernel_distance.
+
+Example C02_distance_nonvacuous :
+  forall F : rcfType, exists env : env_mx F,
+    [/\ 0 <= e_a env <= 1, e_X 2 1 env != 0
+      & idist (eval_mx env (kern_prog 2 1 1)) ord0 (lift ord0 ord0) = 4%:R].
+Proof. exact dist_example. Qed.
